@@ -374,6 +374,51 @@ REPL: Dict[str, List[Any]] = {
 }
 
 
+# degenerate / boundary values of the SAME type (fault kind "extreme")
+EXTREME: Dict[str, List[Any]] = {
+    "int": [0, -1, 2 ** 31 - 1, 2 ** 63, 10 ** 30],
+    "real": [0.0, -1.0, 1e30],
+    "string": [b"", b"\x00" * 70000],
+    "name": [""],
+    "array": [[]],
+    "dict": [{}],
+    "bool": [],
+    "null": [],
+    "ref": [],
+}
+
+# tokens used to damage the dictionary of an inline image (it lives in content-stream bytes)
+INLINE_TOKENS = [b"null", b"true", b"7", b"1.5", b"/Xyz", b"(abc)", b"[]", b"[1 /A]", b"<<>>", b"<</K 1>>", b"/"]
+
+
+def inline_dict_spans(data: bytes) -> List[Tuple[int, int, List[Tuple[int, int]]]]:
+    """(start, end, token spans) of each `BI <dict> ID` segment of an uncompressed content stream;
+    tokens are blank separated (the seeds write them that way), key/value alternate."""
+    out = []
+    i = 0
+    while True:
+        a = data.find(b"BI ", i)
+        if a < 0:
+            break
+        b = data.find(b" ID", a)
+        if b < 0:
+            break
+        toks = []
+        j = a + 3
+        while j < b:
+            while j < b and data[j:j + 1] == b" ":
+                j += 1
+            k = j
+            while k < b and data[k:k + 1] != b" ":
+                k += 1
+            if k > j:
+                toks.append((j, k))
+            j = k
+        out.append((a + 3, b, toks))
+        i = b + 3
+    return out
+
+
 def type_of(v: Any) -> str:
     if v is None:
         return "null"
@@ -499,11 +544,20 @@ def enumerate_faults(s: SeedDoc, rich: bool = False) -> List[Dict[str, Any]]:
                 nalt = len(REPL[ty]) if rich else 1
                 for alt in range(nalt):
                     faults.append(dict(base, kind="replace", path=path, to=ty, alt=alt, was=t, container=ckind))
+            for alt in range(len(EXTREME.get(t, []))):
+                faults.append(dict(base, kind="extreme", path=path, to=t, alt=alt, was=t, container=ckind))
             if ckind == "dict":
                 faults.append(dict(base, kind="remove", path=path, was=t, container=ckind))
             if t == "ref":
                 for how in ("self", "container", "missing", "cycle2", "rho"):
                     faults.append(dict(base, kind="ref", path=path, how=how, was=t, container=ckind))
+        if isinstance(v, Stream) and "Filter" not in v.d and "F" not in v.d:
+            for si, (_, _, toks) in enumerate(inline_dict_spans(v.data)):
+                for ti in range(len(toks)):
+                    if ti % 2 == 1:
+                        for alt in range(len(INLINE_TOKENS)):
+                            faults.append(dict(base, kind="inline", how="replace", seg=si, tok=ti, alt=alt))
+                        faults.append(dict(base, kind="inline", how="remove", seg=si, tok=ti, alt=0))
         if isinstance(v, Stream):
             ln = len(v.data)
             faults.append(dict(base, kind="payload", how="empty", pos=0, n=ln))
@@ -565,6 +619,8 @@ def apply_fault(seed: SeedDoc, f: Dict[str, Any]) -> bytes:
     def new_value() -> Any:
         if kind == "replace":
             return copy.deepcopy(REPL[f["to"]][f.get("alt", 0)])
+        if kind == "extreme":
+            return copy.deepcopy(EXTREME[f["to"]][f.get("alt", 0)])
         if kind == "ref":
             how = f["how"]
             if how == "self":
@@ -588,6 +644,16 @@ def apply_fault(seed: SeedDoc, f: Dict[str, Any]) -> bytes:
 
     if kind == "ref" and f["how"] in ("prevself", "prevcycle", "stmself", "stmcycle", "stmprev"):
         s.objs["prev_fault"] = f["how"]
+        return write_doc(s)
+    if kind == "inline":
+        st = s.objs[f["obj"]]
+        (_, _, toks) = inline_dict_spans(st.data)[f["seg"]]
+        a, b = toks[f["tok"]]
+        if f["how"] == "remove":
+            ka, _ = toks[f["tok"] - 1]
+            st.data = st.data[:ka] + st.data[b:]
+        else:
+            st.data = st.data[:a] + INLINE_TOKENS[f["alt"]] + st.data[b:]
         return write_doc(s)
     if kind == "payload":
         if tk == "obj":
@@ -670,7 +736,10 @@ PATH_OPS = (b"q 2 w 1 J 1 j 4 M [3 2] 0 d /RelativeColorimetric ri 1 i /GS1 gs 0
             b"/CS1 cs 0.1 0.2 0.3 sc /CS1 CS 0.3 0.2 0.1 SC /DeviceGray cs 0.4 scn /DeviceCMYK CS 0 0 0 1 SCN "
             b"/Pat cs /P1 scn /Sh1 sh Q\n")
 MARKED = b"/Tag MP /Tag << /MCID 1 >> DP /Span BMC EMC /P << /MCID 0 >> BDC EMC BX EX\n"
-INLINE = b"q 10 0 0 10 50 50 cm BI /W 2 /H 2 /BPC 8 /CS /G ID \x00\x7f\x80\xff\nEI Q\n"
+INLINE = (b"q 10 0 0 10 50 50 cm BI /W 2 /H 2 /BPC 8 /CS /G ID \x00\x7f\x80\xff\nEI Q\n"
+          b"q BI /W 2 /H 2 /BPC 8 /CS /G /F /AHx /DP null ID 007F80FF>\nEI Q\n"
+          b"q BI /Width 1 /Height 1 /BitsPerComponent 8 /ColorSpace /DeviceGray /Filter [/A85 /AHx] /D [0 1] /I true ID "
+          b"1a~>\nEI Q\n")
 
 
 def helv(extra: Optional[Dict[str, Any]] = None) -> Dict[str, Any]:
@@ -684,7 +753,7 @@ def seed_basic() -> SeedDoc:
     form XObject (Matrix, BBox, own Resources), image XObject, Type1 font with Widths / Differences /
     ToUnicode / FontDescriptor, colour spaces, ExtGState, Contents array, page labels."""
     objs: Dict[int, Any] = {
-        1: {"Type": "Catalog", "Pages": Ref(2), "PageLabels": {"Nums": [0, {"S": "r", "St": 3}, 1, {"S": "D", "P": b"p-"}]}},
+        1: {"Type": "Catalog", "Pages": Ref(2), "PageLabels": Ref(20)},
         2: {"Type": "Pages", "Kids": [Ref(3)], "Count": 2, "MediaBox": [0, 0, 612, 792],
             "Resources": Ref(8), "Rotate": 0},
         3: {"Type": "Pages", "Parent": Ref(2), "Kids": [Ref(4), Ref(5)], "Count": 2, "CropBox": [10, 10, 600, 780]},
@@ -692,7 +761,11 @@ def seed_basic() -> SeedDoc:
         5: {"Type": "Page", "Parent": Ref(3), "Contents": Ref(7), "MediaBox": [0, 0, 300.5, 400],
             "Resources": {"Font": {"F1": Ref(9)}, "XObject": {"Fm1": Ref(12)}}, "Annots": [Ref(17)],
             "LastModified": b"D:20240101"},
-        6: Stream({}, TEXT_OPS + PATH_OPS),
+        6: Stream({"Length": Ref(19)}, TEXT_OPS + PATH_OPS),      # indirect /Length, as most producers write it
+        19: len(TEXT_OPS + PATH_OPS),
+        20: {"Kids": [Ref(21), Ref(22)]},
+        21: {"Limits": [0, 0], "Nums": [0, {"S": "r", "St": 3}]},
+        22: {"Limits": [1, 1], "Nums": [1, {"S": "D", "P": b"p-"}]},
         7: Stream({}, MARKED + INLINE + b"q /Fm1 Do /Im1 Do Q BT /F1 10 Tf 50 50 Td (AaBb) Tj ET\n"),
         8: {"Font": {"F1": Ref(9), "F2": Ref(18)}, "XObject": {"Fm1": Ref(12), "Im1": Ref(13)},
             "ColorSpace": {"CS1": ["ICCBased", Ref(14)], "CS2": ["DeviceN", ["A", "B"], "DeviceRGB", Ref(14)],
